@@ -23,6 +23,7 @@ import (
 	"github.com/ucan-wg/go-ucan/did"
 
 	"verif/harness/h"
+	_ "verif/harness/warm"
 	"verif/harness/keys"
 )
 
